@@ -15,9 +15,12 @@ func main() {
 	}
 	switch os.Args[1] {
 	case "quick", "thorough":
-		os.Exit(orch.Check(os.Args[1], os.Args[2]))
+		code := orch.Check(os.Args[1], os.Args[2])
+		orch.CleanupRaceDir()
+		os.Exit(code)
 	case "replay":
 		code := orch.Replay(os.Args[2], false)
+		orch.CleanupRaceDir()
 		os.Exit(code)
 	default:
 		fmt.Println("unknown command", os.Args[1])
